@@ -33,25 +33,26 @@ const tabSize = 8
 // The parser uses the type <prefix>Lex as a lexer.  It must provide
 // the methods Lex(*<prefix>SymType) int and Error(string).
 type yyLex struct {
-	reader        *bufio.Reader
-	filename      string     // name of the file being read
-	line          string     // current line being parsed
-	lastLine      string     // last line that was parsed
-	pos           ast.Pos    // current position within file
-	yylval        *yySymType // last token
-	eof           bool       // flag to show EOF was read
-	error         bool       // set if an error has ocurred
-	errorString   string     // the string of the error
-	indentStack   []int      // indent stack to control INDENT / DEDENT tokens
-	state         int        // current state of state machine
-	currentIndent string     // whitespace at start of current line
-	interactive   bool       // set if mode "single" reading interactive input
-	exec          bool       // set if mode "exec" reading from file
-	bracket       int        // number of open [ ]
-	parenthesis   int        // number of open ( )
-	brace         int        // number of open { }
-	mod           ast.Mod    // output
-	tokens        []int      // buffered tokens to output
+	reader         *bufio.Reader
+	filename       string     // name of the file being read
+	line           string     // current line being parsed
+	lastLine       string     // last line that was parsed
+	pos            ast.Pos    // current position within file
+	yylval         *yySymType // last token
+	eof            bool       // flag to show EOF was read
+	error          bool       // set if an error has ocurred
+	errorString    string     // the string of the error
+	indentStack    []int      // indent stack to control INDENT / DEDENT tokens
+	altIndentStack []int      // the same indents measured with a tab size of 1
+	state          int        // current state of state machine
+	currentIndent  string     // whitespace at start of current line
+	interactive    bool       // set if mode "single" reading interactive input
+	exec           bool       // set if mode "exec" reading from file
+	bracket        int        // number of open [ ]
+	parenthesis    int        // number of open ( )
+	brace          int        // number of open { }
+	mod            ast.Mod    // output
+	tokens         []int      // buffered tokens to output
 }
 
 // Create a new lexer
@@ -62,10 +63,11 @@ type yyLex struct {
 // consists of a single interactive statement
 func NewLex(r io.Reader, filename string, mode py.CompileMode) (*yyLex, error) {
 	x := &yyLex{
-		reader:      bufio.NewReader(r),
-		filename:    filename,
-		indentStack: []int{0},
-		state:       readString,
+		reader:         bufio.NewReader(r),
+		filename:       filename,
+		indentStack:    []int{0},
+		altIndentStack: []int{0},
+		state:          readString,
 	}
 	switch mode {
 	case py.ExecMode:
@@ -137,13 +139,10 @@ func countIndent(s string) int {
 	if len(s) == 0 {
 		return 0
 	}
-	// FIXME these rules don't actually implement the python3
-	// lexing rules which state
-	//
 	// Indentation is rejected as inconsistent if a source file
 	// mixes tabs and spaces in a way that makes the meaning
 	// dependent on the worth of a tab in spaces; a TabError is
-	// raised in that case
+	// raised in that case - see countAltIndent
 	indent := 0
 	for _, c := range s {
 		switch c {
@@ -170,6 +169,30 @@ func countIndent(s string) int {
 
 	}
 	return indent
+}
+
+// Finds the length of a space and tab seperated string with an
+// alternate tab size of 1
+//
+// Indentation is consistent only if comparing two lines gives the
+// same answer with both tab sizes, otherwise its meaning would depend
+// on the worth of a tab in spaces
+func countAltIndent(s string) int {
+	indent := 0
+	for _, c := range s {
+		switch c {
+		case ' ', '\t':
+			indent++
+		case '\f':
+			indent = 0
+		}
+	}
+	return indent
+}
+
+// Raise the error for indentation whose meaning depends on the tab size
+func tabError() {
+	panic(py.ExceptionNewf(py.TabError, "inconsistent use of tabs and spaces in indentation"))
 }
 
 var operators = map[string]int{
@@ -391,6 +414,7 @@ func (x *yyLex) queueDedents() {
 		x.queue(DEDENT)
 	}
 	x.indentStack = x.indentStack[:1]
+	x.altIndentStack = x.altIndentStack[:1]
 }
 
 // The parser calls this method to get each new token.  This
@@ -456,12 +480,20 @@ func (x *yyLex) Lex(yylval *yySymType) (ret int) {
 			}
 			// See if indent has changed and issue INDENT / DEDENT
 			indent := countIndent(x.currentIndent)
+			altIndent := countAltIndent(x.currentIndent)
 			i := len(x.indentStack) - 1
 			indentStackTop := x.indentStack[i]
 			if indent == indentStackTop {
+				if altIndent != x.altIndentStack[i] {
+					tabError()
+				}
 				continue
 			} else if indent > indentStackTop {
+				if altIndent <= x.altIndentStack[i] {
+					tabError()
+				}
 				x.indentStack = append(x.indentStack, indent)
+				x.altIndentStack = append(x.altIndentStack, altIndent)
 				yylval.pos.ColOffset = 0 // Indents start at 0
 				return INDENT
 			} else {
@@ -474,7 +506,11 @@ func (x *yyLex) Lex(yylval *yySymType) (ret int) {
 				x.SyntaxError("Inconsistent indent")
 				return eof
 			foundIndent:
+				if altIndent != x.altIndentStack[i] {
+					tabError()
+				}
 				x.indentStack = x.indentStack[:i+1]
+				x.altIndentStack = x.altIndentStack[:i+1]
 				return x.dequeue()
 			}
 		case parseTokens:
